@@ -37,6 +37,9 @@ def cases(tier, seed):
         for tdt in ('uint8', 'int16', 'float32', 'float64'):
             out.append(dict(gen='mi', style=style, tdtype=tdt, sub=core.subseed('C13', seed, k), must=True))
             k += 1
+    # batches of one run handed over in different sample types (8-bit signed and unsigned, 16-bit, floating point)
+    for j in range(4 if tier == 'quick' else 60):
+        out.append(dict(gen='mi', style='integer', tdtype='int16', mixed=True, sub=core.subseed('C13mx', seed, j), must=True))
     for j in range(6):
         out.append(dict(gen='validation', sub=core.subseed('C13v', seed, j), must=True))
         out.append(dict(gen='sanitizer', sub=core.subseed('C13s', seed, j), must=True))
@@ -153,10 +156,30 @@ def _mi(t, case, rng):
         if float(x[-1].astype(float)[0]) in (top, top + abs(top) * 0.5 + 1.0) or np.dtype(x.dtype).kind == 'f':
             sizes = [n - 1, 1] if len(sizes) == 1 else sizes[:-1] + ([sizes[-1] - 1, 1] if sizes[-1] > 1 else [1])
             t.count('saturated_trace_in_its_own_batch')
+    bdts = None
+    if case.get('mixed'):
+        w_ = int(rng.choice([5, 10, 26]))
+        edges = np.arange(-130, 261, w_).astype('float64')
+        spec['bin_edges'] = edges.tolist()
+        sizes = gen.split_sizes(rng, n, kmax=4) if n >= 8 else [n]
+        if len(sizes) < 2 and n >= 2:
+            sizes = [n // 2, n - n // 2]
+        first8 = ['int8', 'uint8'][int(rng.integers(2))]
+        bdts = [first8, 'uint8' if first8 == 'int8' else 'int8'] + [['int8', 'uint8', 'int16', 'float32', 'float64', 'int32'][int(rng.integers(6))] for _ in sizes[2:]]
+        bdts = bdts[:len(sizes)]
+        if rng.random() < 0.3:
+            bdts = [bdts[i] for i in rng.permutation(len(bdts))]
+        parts = []
+        for s_, d_ in zip(sizes, bdts):
+            lo_, hi_ = (max(int(np.iinfo(d_).min), -140), min(int(np.iinfo(d_).max), 270)) if np.dtype(d_).kind in 'iu' else (-140, 270)
+            parts.append(rng.integers(lo_, hi_ + 1, (s_, T)))
+        x = np.concatenate(parts).astype('int64')
+        n_edge = n_ulp = 0
+        t.count('mixed_sample_type_runs')
     obj = subjects.make(spec)
     pos = 0
-    for s in sizes:
-        obj.update(x[pos:pos + s], data[pos:pos + s])
+    for b_, s in enumerate(sizes):
+        obj.update(x[pos:pos + s] if bdts is None else x[pos:pos + s].astype(bdts[b_]), data[pos:pos + s])
         pos += s
     if style == 'bins_only':
         first = x[:sizes[0]]
@@ -172,7 +195,7 @@ def _mi(t, case, rng):
         got = np.asarray(obj.compute(), dtype=float)
     held_edges = np.asarray(obj.bin_edges, dtype=float)
     val, bins = oracles.mutual_information(x, data, declared, held_edges)
-    info = dict(case=case, n=n, T=T, W=W, nbins=len(held_edges) - 1, declared=declared, sizes=sizes, mia_precision=mia_prec, edges=held_edges.tolist()[:6])
+    info = dict(case=case, n=n, T=T, W=W, nbins=len(held_edges) - 1, declared=declared, sizes=sizes, mia_precision=mia_prec, edges=held_edges.tolist()[:6], batch_sample_types=bdts)
     t.count('edge_samples', n_edge)
     t.count('ulp_samples', n_ulp)
     # conservation on the accumulator: the joint histogram by (sample, bin, class, word)
@@ -365,11 +388,11 @@ def _validation(t, case, rng):
         except (ValueError, TypeError):
             t.check(True, '')
     # decreasing / repeated edges
-    for bad in ([0, 1, 1, 2], [0, 2, 1, 3], [3, 2, 1], [0.0, 1.0, 0.5]):
+    for bad in ([0, 1, 1, 2], [0, 2, 1, 3], [3, 2, 1], [0.0, 1.0, 0.5], range(8, -1, -2), range(127, -129, -1), range(3, 0, -1), range(int(rng.integers(5, 50)), -3, -int(rng.integers(1, 4)))):
         t.count('nonuniform_lists')
         try:
-            construct(bad, int(rng.integers(2)))
-            t.check(False, 'non_increasing_edges_accepted', dict(edges=bad))
+            construct(bad, int(rng.integers(3)))
+            t.check(False, 'non_increasing_edges_accepted', dict(edges=repr(bad)))
         except (ValueError, TypeError):
             t.check(True, '')
     # the same, handed over as numpy arrays of narrow integer / float dtypes (differences of unsigned or 8-bit edges wrap around):
